@@ -110,6 +110,12 @@ fn use_module(rd: &mut Rd, m: &str, labels: &mut Vec<&'static str>) -> Vec<Stmt>
 }
 
 pub fn program(data: &[u8]) -> (Program, Vec<&'static str>) {
+    program_opts(data, true)
+}
+
+/// `rebind_builtins`: main and modules may replace `type` / `print` for themselves (not wanted where
+/// the check itself observes errors through `type`, as C17's twin programs do)
+pub fn program_opts(data: &[u8], rebind_builtins: bool) -> (Program, Vec<&'static str>) {
     let mut rd = Rd::new(data, 10_000);
     let mut labels: Vec<&'static str> = Vec::new();
     let mut counter = 0usize;
@@ -140,6 +146,11 @@ pub fn program(data: &[u8]) -> (Program, Vec<&'static str>) {
         body.push(Stmt::print(s(&format!("load {}", paths[i]))));
         body.push(Stmt::var("tag", Some(s(&format!("tag of {}", paths[i])))));
         body.push(Stmt::var("counter", Some(Expr::Num(i as f64 * 10.0))));
+        if rd.chance(1, 10) && rebind_builtins {
+            // the module replaces a built-in for itself: nobody else may notice
+            labels.push("module_rebinds_builtin");
+            body.push(fdef("type", &["x"], vec![Stmt::new(StmtKind::Return(Some(s(&format!("type as {} sees it", paths[i])))))]));
+        }
         body.push(fdef(
             "bump",
             &[],
@@ -236,6 +247,18 @@ pub fn program(data: &[u8]) -> (Program, Vec<&'static str>) {
     main.push(Stmt::var("tag", Some(s("tag of main"))));
     main.push(Stmt::var("counter", Some(Expr::Num(1000.0))));
     main.push(Stmt::var("only_in_main", Some(s("main only"))));
+    if rd.chance(1, 6) && rebind_builtins {
+        // main replaces built-ins for its own purposes before anything is imported: every module
+        // must still get the real ones
+        labels.push("main_rebinds_builtin");
+        if rd.flag() {
+            main.push(fdef("type", &["x"], vec![Stmt::new(StmtKind::Return(Some(s("type as main sees it"))))]));
+        }
+        if rd.flag() {
+            main.push(Stmt::var("real_print", Some(v("print"))));
+            main.push(fdef("print", &["x"], vec![Stmt::expr(Expr::callv("real_print", vec![Expr::VecLit(vec![s("main prints"), v("x")])]))]));
+        }
+    }
     let nimp = 1 + rd.below(6);
     let mut bound: Vec<(String, usize)> = Vec::new();
     for _ in 0..nimp {
